@@ -429,6 +429,8 @@ class ColorValue(Value):
                     # convert to rgb
                     # h is 360 based (circle)
                     h, s, l_ = raw[0] / 360.0, raw[1], raw[2]
+                    # saturation and lightness are clipped to 0..100%
+                    s, l_ = min(max(s, 0), 1), min(max(l_, 0), 1)
                     # ORDER h l_ s !!!
                     r, g, b = colorsys.hls_to_rgb(h, l_, s)
                     # back to 255 based
@@ -442,6 +444,10 @@ class ColorValue(Value):
                 else:
                     # rgb, rgba
                     rgba = raw
+
+                # values outside the device gamut are clipped
+                rgba = [min(max(c, 0), 255) for c in rgba[:3]] + \
+                       [min(max(a, 0), 1) for a in rgba[3:]]
 
                 if len(rgba) < 4:
                     rgba.append(1.0)
